@@ -829,9 +829,9 @@ impl CertificateParams {
 								oid::BASIC_CONSTRAINTS,
 								true,
 								|writer| {
-									writer.write_sequence(|writer| {
-										writer.next().write_bool(false); // cA flag
-									});
+									// The cA flag is FALSE, which is its DEFAULT value:
+									// DER requires it to be omitted.
+									writer.write_sequence(|_writer| {});
 								},
 							);
 						},
